@@ -16,8 +16,8 @@ import (
 
 var one = big.NewInt(1)
 
-func mod2(w int) *big.Int  { return refir.Mod2(w) }
-func ones(w int) *big.Int  { return new(big.Int).Sub(mod2(w), one) }
+func mod2(w int) *big.Int             { return refir.Mod2(w) }
+func ones(w int) *big.Int             { return new(big.Int).Sub(mod2(w), one) }
 func wrap(v *big.Int, w int) *big.Int { return new(big.Int).Mod(v, mod2(w)) } // euclidean: handles negatives
 func signed(v *big.Int, w int) *big.Int {
 	if v.Bit(8*w-1) == 1 {
@@ -137,14 +137,18 @@ var gadgets = []gadget{
 			return sel(signed(v[0], w).Cmp(signed(v[1], w)) <= 0, v[2], v[3]), w
 		}},
 	{name: "MaskBits", nOps: 1, auxMax: func(w int) int { return 8*w + 1 },
-		build: func(o []expr.Expr, w expr.Width, aux int) expr.Expr { return exprtools.MaskBits(o[0], exprtools.BitCnt(aux), w) },
+		build: func(o []expr.Expr, w expr.Width, aux int) expr.Expr {
+			return exprtools.MaskBits(o[0], exprtools.BitCnt(aux), w)
+		},
 		ref: func(v []*big.Int, w int, aux int) (*big.Int, int) {
 			return new(big.Int).And(v[0], new(big.Int).Sub(new(big.Int).Lsh(one, uint(aux)), one)), w
 		}},
 	{name: "IntNegative", nOps: 1, nonzeroOnly: true, build: func(o []expr.Expr, w expr.Width, _ int) expr.Expr { return exprtools.IntNegative(o[0], w) },
 		ref: func(v []*big.Int, w int, _ int) (*big.Int, int) { return b2i(v[0].Bit(8*w-1) == 1), w }},
 	{name: "WidthGadget", nOps: 1, auxMax: func(w int) int { return 255 },
-		build: func(o []expr.Expr, w expr.Width, aux int) expr.Expr { return exprtools.NewWidthGadget(o[0], expr.Width(aux+1)) },
+		build: func(o []expr.Expr, w expr.Width, aux int) expr.Expr {
+			return exprtools.NewWidthGadget(o[0], expr.Width(aux+1))
+		},
 		ref: func(v []*big.Int, w int, aux int) (*big.Int, int) { return refir.Adjust(v[0], aux+1), aux + 1 }},
 }
 
@@ -311,8 +315,8 @@ func main() {
 		req = append(req, "gadget_"+g.name)
 	}
 	mon.Main(mon.Spec{
-		Prop: "C11",
-		Rule: "case = (gadget, width, auxiliary bit index/shift/count, operand values of the gadget's width drawn from {0,1,-1,MIN,MIN+1,MAX,small signed,random patterns} in all sign combinations, sometimes equal operands); widths from the boundary set (quick) plus uniform 1..255 (thorough), SignedMul <= 127; every case counts as non-trivial and is distinct by its full description",
+		Prop:        "C11",
+		Rule:        "case = (gadget, width, auxiliary bit index/shift/count, operand values of the gadget's width drawn from {0,1,-1,MIN,MIN+1,MAX,small signed,random patterns} in all sign combinations, sometimes equal operands); widths from the boundary set (quick) plus uniform 1..255 (thorough), SignedMul <= 127; every case counts as non-trivial and is distinct by its full description",
 		Explanation: "oracle: the documented function computed with math/big signed arithmetic (signed remainder by the test suite's convention: |a| mod |b| negated iff exactly one operand is negative; IntNegative only zero/non-zero); two observed paths per case: ConstFold of the gadget over constants, and refir evaluation of the gadget over symbolic register operands",
 		Assumptions: []string{"math/big", "refir evaluator", "operands have the gadget's width (documented domain)"},
 		Cases: func(t string) int {
